@@ -155,7 +155,14 @@ class Check(PropertyCheck):
                 if bad:
                     lines += [f"disp {bad[0]} {bad[1]} {bad[2]}", "wsnap"]
             elif r < 0.13:
-                lines += ["reset", "wsnap"]
+                who = [idx for idx, k in enumerate(kinds) if k in ("makespan_reward", "idle_reward")]
+                if who and rng.random() < 0.3:
+                    # a reward observer sits out a reset (unsubscribed, the dispatcher is reset, it is subscribed again) and the caller
+                    # resets once more before going on: every reset resets whoever is subscribed, also when nothing was dispatched since
+                    w_ = rng.choice(who)
+                    lines += [f"unsub {w_}", "reset", f"resub {w_}", "reset", "wsnap"]
+                else:
+                    lines += ["reset", "wsnap"]
                 tr.reset()
                 if rng.random() < 0.4:
                     # one reward observer is retired and a new one (built the ordinary way) takes its place on the reset dispatcher:
